@@ -7,7 +7,8 @@
 (* Input IOEnv.OBS: line 1 = [ref |-> findings of the fault-free run,      *)
 (*                            exitcode |-> --error-exitcode value]         *)
 (*   other lines = [fault |-> [file, k, how], died (the fault fired),      *)
-(*                  timeout, exit, findings]   finding = [id, file, key]   *)
+(*                  dead (files whose worker died), timeout, exit,         *)
+(*                  findings]   finding = [id, file, key]                  *)
 (* Output IOEnv.OUT: the runs violating the property with the reason.      *)
 (***************************************************************************)
 EXTENDS Integers, Sequences, FiniteSets, TLC, Json, IOUtils, SequencesExt
@@ -16,14 +17,17 @@ In == ndJsonDeserialize(IOEnv.OBS)
 Ref == In[1]
 Obs == SubSeq(In, 2, Len(In))
 
-RefKeysNotOf(f) == {Ref.ref[i].key : i \in {j \in DOMAIN Ref.ref : Ref.ref[j].file # f /\ Ref.ref[j].id # "checkersReport"}}
-KeysNotOf(o, f) == {o.findings[i].key : i \in {j \in DOMAIN o.findings :
-                       o.findings[j].file # f /\ o.findings[j].id \notin {"checkersReport", "cppcheckError"}}}
+\* o.dead = the files whose worker process died (measured: the last event of the worker's log is marked `dies');
+\* with a fault that names one file this is that file, a fault matching every worker kills several at the same step
+Dead(o) == ToSet(o.dead)
+RefKeysNotOf(D) == {Ref.ref[i].key : i \in {j \in DOMAIN Ref.ref : Ref.ref[j].file \notin D /\ Ref.ref[j].id # "checkersReport"}}
+KeysNotOf(o, D) == {o.findings[i].key : i \in {j \in DOMAIN o.findings :
+                       o.findings[j].file \notin D /\ o.findings[j].id \notin {"checkersReport", "cppcheckError"}}}
 
 \* the four obligations of the statement
 Terminates(o)    == ~o.timeout
-CrashReported(o) == \E i \in DOMAIN o.findings : o.findings[i].id = "cppcheckError" /\ o.findings[i].file = o.fault.file
-OthersIntact(o)  == KeysNotOf(o, o.fault.file) = RefKeysNotOf(o.fault.file)
+CrashReported(o) == \A f \in Dead(o) : \E i \in DOMAIN o.findings : o.findings[i].id = "cppcheckError" /\ o.findings[i].file = f
+OthersIntact(o)  == KeysNotOf(o, Dead(o)) = RefKeysNotOf(Dead(o))
 ExitIsError(o)   == o.exit = Ref.exitcode
 
 Reasons(o) ==
@@ -40,6 +44,6 @@ ASSUME PrintT(<<"JUDGED", Judged, "BAD", Cardinality(BadIdx)>>)
 ASSUME ndJsonSerialize(IOEnv.OUT, [i \in 1..Cardinality(BadIdx) |->
           LET o == Obs[SetToSeq(BadIdx)[i]] IN
             [fault |-> o.fault, reasons |-> Reasons(o), exit |-> o.exit,
-             missing |-> SetToSeq(RefKeysNotOf(o.fault.file) \ KeysNotOf(o, o.fault.file)),
-             extra |-> SetToSeq(KeysNotOf(o, o.fault.file) \ RefKeysNotOf(o.fault.file))]])
+             missing |-> SetToSeq(RefKeysNotOf(Dead(o)) \ KeysNotOf(o, Dead(o))),
+             extra |-> SetToSeq(KeysNotOf(o, Dead(o)) \ RefKeysNotOf(Dead(o)))]])
 =============================================================================
